@@ -5,6 +5,7 @@ package store
 import (
 	"bytes"
 	"fmt"
+	"strings"
 
 	"github.com/influxdata/influxdb/v2/models"
 	"github.com/influxdata/influxdb/v2/storage/reads/datatypes"
@@ -130,6 +131,13 @@ func (n *pnode) refsAbsent(s int) bool {
 	return !ok
 }
 
+func (n *pnode) refsKey(k string) bool {
+	if n.logical() {
+		return n.L.refsKey(k) || n.R.refsKey(k)
+	}
+	return n.K == k
+}
+
 // shape names the structural feature of a predicate with respect to one series (violation signatures).
 func (n *pnode) shape(s int) string {
 	var hasOr, hasAnd, orLeft, orRight bool
@@ -170,6 +178,10 @@ func (n *pnode) shape(s int) string {
 	}
 	if bytes.IndexByte(stor.PredicateKey(s), '\\') >= 0 {
 		sh += ":escaped-key"
+	}
+	// a measurement name "k=..." whose k the predicate compares as a tag
+	if k, _, ok := strings.Cut(stor.SeriesMeas(s), "="); ok && n.refsKey(k) {
+		sh += ":measurement-name-shadows-tag"
 	}
 	return sh
 }
